@@ -218,7 +218,8 @@ class ExprGen(BlockGen):
         self.cmp_values = True
         self.count_jmp = True
         self.use_ds = False
-        self.in_ds = False
+        self.in_ds = 0
+        self.ds_len = None
 
     def int_expr(self, depth=0):
         r = self.rng.random()
@@ -244,12 +245,14 @@ class ExprGen(BlockGen):
             return {"k": "tern", "c": self.cond_expr(depth + 1), "a": self.int_expr(depth + 1), "b": self.int_expr(depth + 1)}
         if r < 0.9 and self.cmp_values:
             return binop(self.rng.choice(["==", "!=", "<", "<=", ">", ">="]), self.int_expr(depth + 1), self.int_expr(depth + 1))
-        if r < 0.96 and self.use_ds and not self.in_ds:
-            # (no switch inside a switch: nested switches are C14's business — and a known finding there)
-            n = self.rng.choice([2, 3, 4])
-            self.in_ds = True
+        if r < 0.96 and self.use_ds and self.in_ds < 2:
+            # a switch inside a case of another switch has the same length (mixed lengths are rejected by design)
+            n = self.ds_len if self.in_ds else self.rng.choice([2, 3, 4])
+            outer_len, self.ds_len = getattr(self, "ds_len", None), n
+            self.in_ds += 1
             cases = [self.int_expr(depth + 2)] + [self.int_expr(depth + 2) if self.rng.random() < 0.7 else {"k": "hole"} for _ in range(n - 1)]
-            self.in_ds = False
+            self.in_ds -= 1
+            self.ds_len = outer_len
             return {"k": "ds", "cases": cases}
         return self.int_atom()
 
